@@ -27,6 +27,36 @@ theorem C14_extend (st : St) (table : List TEntry)
     (∀ p i, st.fs.inoOf p = some i → (∀ e ∈ table, e.isPad = false → e.fullTarget ≠ p) →
       (∀ e ∈ table, e.isPad = false → st.fs.inoOf e.fullTarget ≠ some i) →
       (fixExportFileLengths st table).1.fs.inoOf p = some i ∧ (fixExportFileLengths st table).1.fs.content i = st.fs.content i) := by
-  sorry
+  obtain ⟨hs1, hs2⟩ := hsane
+  obtain ⟨p1, p2, p3⟩ := RunN.pass1_ok table st hnf (fun e he hp =>
+    ⟨fun i hi => Nat.le_of_not_lt (fun hgt => hnoover e he ⟨hp, i, hi, hgt⟩), hlook e he hp⟩)
+  have hfix : fixExportFileLengths st table = resizePass2 (resizePass1 st table).1 table := by
+    unfold fixExportFileLengths
+    rcases hp : resizePass1 st table with ⟨st1, fl⟩
+    rw [hp] at p1
+    simp only at p1
+    subst p1
+    rfl
+  rw [hfix]
+  obtain ⟨q1, ⟨qf, qd, qc⟩, _, q4⟩ := RunN.pass2_all st.fs table hs1 hs2 hlook table (resizePass1 st table).1 p3
+    (by rw [p2]; exact RunN.Inv.refl _ _) (fun _ h => h)
+  refine ⟨q1, fun e he hp i hi => ⟨?_, ?_⟩, fun p i hpi _ hno => ⟨?_, ?_⟩⟩
+  · rw [RunN.look_congr qf qd]; exact hi
+  · have hlen := q4 e he hp i hi
+    have hnov : (st.fs.content i).length ≤ e.fileLength :=
+      Nat.le_of_not_lt (fun hgt => hnoover e he ⟨hp, i, hi, hgt⟩)
+    rcases qc i with h | ⟨e', he', hp', hl', hlt', hc'⟩
+    · rw [h] at hlen ⊢
+      have : e.fileLength - (st.fs.content i).length = 0 := by omega
+      rw [this]; simp
+    · have : e'.fileLength = e.fileLength := by
+        by_cases hne : e'.fullTarget = e.fullTarget
+        · exact hs1 e' he' e he hp' hp hne
+        · exact absurd rfl (hs2 e' he' e he hp' hp hne i i (RunN.look_inoOf hl') (RunN.look_inoOf hi))
+      rw [hc', this]
+  · rw [RunN.inoOf_congr qf]; exact hpi
+  · rcases qc i with h | ⟨e', he', hp', hl', _, _⟩
+    · exact h
+    · exact absurd (RunN.look_inoOf hl') (hno e' he' hp')
 
 end TB
